@@ -2,10 +2,8 @@
 #include "world.hh"
 #include "profiles.hh"
 namespace vsim {
-void register_fa_ops() {}
 void register_bdd_ops() {}
 void register_mtbdd_ops() {}
 void register_text_ops() {}
 void register_corpus_ops() {}
-bool generate_plan_ext(const std::string&, const std::string&, Rng&, Plan&) { return false; }
 }
